@@ -19,11 +19,11 @@ Variable skip : bool.
 Variable dict : list byte.
 
 (* the goal: the frame specification applied to what was consumed so far, followed by g *)
-Definition Goal (p g : list byte) (res : list byte * list byte) : Prop :=
+Definition SpecGoal (p g : list byte) (res : list byte * list byte) : Prop :=
   frame_decode bdec skip dict (p ++ g) = Some res.
 Definition Kc (p : list byte) (E : list byte -> list byte * list byte -> Prop) : Prop :=
-  forall g res, E g res -> Goal p g res.
-Definition Done (p O : list byte) : Prop := forall g, Goal p g (O, g).
+  forall g res, E g res -> SpecGoal p g res.
+Definition Done (p O : list byte) : Prop := forall g, SpecGoal p g (O, g).
 (* the end of a frame: an LZ4 frame accepted by the specification, or a skippable frame *)
 Definition Fin (p O : list byte) : Prop :=
   Done p O \/ (O = [] /\ 4 <= zlen p /\ Z.land (rd32 p) SKIP_MASK = FD_MAGIC_SKIPPABLE_START).
@@ -135,7 +135,7 @@ Proof. exact (fun H => H). Qed.
 
 Lemma Kc_shift p x (E E' : list byte -> list byte * list byte -> Prop) :
   Kc p E -> (forall g res, E' g res -> E (x ++ g) res) -> Kc (p ++ x) E'.
-Proof. intros K H g res He. unfold Goal. rewrite <- app_assoc. apply K. apply H. exact He. Qed.
+Proof. intros K H g res He. unfold SpecGoal. rewrite <- app_assoc. apply K. apply H. exact He. Qed.
 
 Ltac binv_same B := (eapply binv_eq; [| | | | | |exact B]; reflexivity).
 
@@ -839,7 +839,7 @@ Proof.
   - reflexivity.
   - apply binv_after_init; auto.
     destruct (f_csize d) as [n|] eqn:EN; [|exact I]. eapply parse_desc_csize_bound; eauto.
-  - intros g res (F & HF). unfold Goal, frame_decode.
+  - intros g res (F & HF). unfold SpecGoal, frame_decode.
     change (take 4 ((m0 :: m1 :: m2 :: m3 :: pre0) ++ g)) with (Some ([m0; m1; m2; m3], pre0 ++ g)). cbv iota beta. rewrite Hm.
     replace (FD_MAGICNUMBER =? MAGIC) with true by (vm_compute; reflexivity). rewrite Hrepl, HB.
     eapply blocks_mono; [exact HF|lia].
